@@ -13,6 +13,7 @@ import (
 	"reflect"
 	"strings"
 	"sync"
+	"sync/atomic"
 	"time"
 
 	"github.com/cenkalti/backoff/v4"
@@ -99,7 +100,10 @@ type ovsdbClient struct {
 	primaryDBName string
 	databases     map[string]*database
 
-	errorCh       chan error
+	errorCh chan error
+	// the connection the client itself has given up, until its disconnection
+	// is handled (a *rpc2.Client)
+	dropped       atomic.Value
 	stopCh        chan struct{}
 	disconnect    chan struct{}
 	shutdown      bool
@@ -621,7 +625,24 @@ func (o *ovsdbClient) SetOption(opt Option) error {
 func (o *ovsdbClient) Connected() bool {
 	o.rpcMutex.RLock()
 	defer o.rpcMutex.RUnlock()
-	return o.connected
+	return o.isConnected()
+}
+
+// isConnected returns whether the client has a connection that it has not
+// given up. Assumes rpcMutex is held
+func (o *ovsdbClient) isConnected() bool {
+	if o.rpcClient == nil || !o.connected {
+		return false
+	}
+	dropped, _ := o.dropped.Load().(*rpc2.Client)
+	return dropped != o.rpcClient
+}
+
+// drop closes a connection the client gives up. It does not take rpcMutex:
+// the calls in flight hold it, and may be waiting for this very connection
+func (o *ovsdbClient) drop(rpcClient *rpc2.Client) {
+	o.dropped.Store(rpcClient)
+	rpcClient.Close()
 }
 
 func (o *ovsdbClient) CurrentEndpoint() string {
@@ -866,7 +887,7 @@ func (o *ovsdbClient) logFromContext(ctx context.Context) *logr.Logger {
 func (o *ovsdbClient) Transact(ctx context.Context, operation ...ovsdb.Operation) ([]ovsdb.OperationResult, error) {
 	logger := o.logFromContext(ctx)
 	o.rpcMutex.RLock()
-	if o.rpcClient == nil || !o.connected {
+	if !o.isConnected() {
 		o.rpcMutex.RUnlock()
 		if o.options.reconnect {
 			logger.V(5).Info("blocking transaction until reconnected", "operations",
@@ -880,7 +901,7 @@ func (o *ovsdbClient) Transact(ctx context.Context, operation ...ovsdb.Operation
 					return nil, fmt.Errorf("%w: while awaiting reconnection", ctx.Err())
 				case <-ticker.C:
 					o.rpcMutex.RLock()
-					if o.rpcClient != nil && o.connected {
+					if o.isConnected() {
 						break ReconnectWaitLoop
 					}
 					o.rpcMutex.RUnlock()
@@ -1292,7 +1313,7 @@ func (o *ovsdbClient) watchForLeaderChange(ctx context.Context) error {
 			}
 
 			o.rpcMutex.Lock()
-			if !dbInfo.Leader && o.connected {
+			if !dbInfo.Leader && o.isConnected() {
 				activeEndpoint := o.endpoints[0]
 				if sid == activeEndpoint.serverID {
 					o.logger.V(3).Info("endpoint lost leader, reconnecting",
@@ -1383,7 +1404,7 @@ func (o *ovsdbClient) handleClientErrors(stopCh <-chan struct{}, rpcClient *rpc2
 				}
 				// drop the connection without waiting for the calls in
 				// flight: they may be waiting for this very connection
-				rpcClient.Close()
+				o.drop(rpcClient)
 			} else {
 				o.logger.V(3).Error(err, "error updating cache")
 			}
@@ -1395,7 +1416,7 @@ func (o *ovsdbClient) handleInactivityProbes(rpcClient *rpc2.Client, stopCh chan
 	defer o.handlerShutdown.Done()
 	echoReplied := make(chan string, 1)
 	var lastEcho string
-	dropConnection := func() { rpcClient.Close() }
+	dropConnection := func() { o.drop(rpcClient) }
 	for {
 		select {
 		case <-stopCh:
